@@ -36,8 +36,9 @@ def decode (s : String) : Option Bytes :=
 
 end Hex
 
-/-- ASCII bytes of a Lean string literal (model constants are ASCII). -/
-def str (s : String) : Bytes := s.toUTF8.toList
+/-- ASCII bytes of a Lean string literal (model constants are ASCII; kernel-reducible, so
+    `decide` can evaluate models on literals — `String.toUTF8` is not). -/
+def str (s : String) : Bytes := s.toList.map (fun c => c.toNat.toUInt8)
 
 def bytesToString (b : Bytes) : String :=
   String.ofList (b.map (fun x => Char.ofNat x.toNat))
